@@ -463,8 +463,10 @@ func payloadImmutable(c *Ctx, rule string) {
 			if !ok {
 				return
 			}
+			// the payload types of Value: *float64 (Num), *string (Str), *bool (Bool); a *int counter handed
+			// to a helper is not a payload
 			b, ok := pt.Elem().Underlying().(*types.Basic)
-			if !ok || b.Info()&(types.IsNumeric|types.IsString|types.IsBoolean) == 0 {
+			if !ok || !(b.Kind() == types.Float64 || b.Kind() == types.String || b.Kind() == types.Bool) {
 				return
 			}
 			if _, fresh := st.Addr.(*ssa.Alloc); fresh {
